@@ -79,7 +79,7 @@ def _run(ck, hb, quick, replay):
     items = [("witness 3-layer sphere (radii from seed 31337, sigma 0.33/0.0125/0.33)", witness_model(),
               [(None, (0.0, 0.0, 0.0), s, 1.0) for s in SCALES + [64.0, 128.0]] + [(None, (0.0, 0.0, 0.0), 1.0, k) for k in CONDS])]
     nmod = 5 if quick else 30
-    kinds = ["nested", "split", "inclusions", "isolated", "nonconductive", "nested"]
+    kinds = ["nested", "split", "inclusions", "isolated", "capball", "nested"]
     for n in range(nmod):
         kd = kinds[n % len(kinds)]
         c = hc.make_case(ck.rng, 1 if (quick or n % 5) else 2, (kd,))
